@@ -180,6 +180,40 @@ def run(check, an: Analysis):
     check.stats.update(an.stats())
 
 
+def check_scale(check, an: Analysis, rule: str, throttle=None, scale='self._throughput_scale'):
+    """the slow-down factor: 1 unless demand strictly exceeds the throughput (a pipe that
+    is exactly saturated is not throttled, and nobody is woken to re-plan for nothing)"""
+    if throttle is None:
+        throttle = an.callee(PIPE, '_throttle_subscribers')
+    # scale formula
+    from .c19 import inequality
+    overload = inequality(ast.parse('sum(self._subscriptions.values()) > self.throughput',
+                                    mode='eval').body)
+    kinds = {}
+    for path in an.paths(throttle):
+        for index, event in enumerate(path.events):
+            if event.kind == 'store' and event['path'] == scale:
+                value = rules.value_expr(path, index, event['value'])
+                guards = [e for i, e in enumerate(path.events[:index]) if e.kind == 'test'
+                          and inequality(rules.value_expr(path, i, e.node)) == overload]
+                congested = bool(guards) and guards[-1]['value'] is True
+                relaxed = bool(guards) and guards[-1]['value'] is False
+                if isinstance(value, ast.Constant):
+                    ok = float(value.value) == 1.0 and relaxed
+                    kinds['uncongested=1'] = kinds.get('uncongested=1', True) and ok
+                else:
+                    ok = equal_algebra(
+                        value, 'self.throughput / sum(self._subscriptions.values())') \
+                        and congested
+                    kinds['congested=throughput/sum'] = kinds.get(
+                        'congested=throughput/sum', True) and ok
+    for name in ('uncongested=1', 'congested=throughput/sum'):
+        check.instance(rule, 'scale:%s' % name, kinds.get(name) is True,
+                       where_fn(throttle.fn),
+                       'scale is 1 when demand <= throughput, throughput / sum(all limits) '
+                       'under `sum > throughput`: %s' % kinds)
+
+
 def _accumulator(fn):
     """the local that accumulates the transferred volume (`acc += ...` inside the loop)"""
     loops = [n for n in ast.walk(fn.node) if isinstance(n, ast.While)]
@@ -337,33 +371,39 @@ def _check_formulas(check, an: Analysis, transfer, throttle, paths):
                    'per window: start time and rate are read before the wait, end time '
                    'after it', path=rules.path_lines(*bad_order) if bad_order else None,
                    analysed=n_acc)
-    # scale formula
-    from .c19 import inequality
-    overload = inequality(ast.parse('sum(self._subscriptions.values()) > self.throughput',
-                                    mode='eval').body)
-    kinds = {}
-    for path in an.paths(throttle):
-        for index, event in enumerate(path.events):
-            if event.kind == 'store' and event['path'] == scale:
-                value = rules.value_expr(path, index, event['value'])
-                guards = [e for i, e in enumerate(path.events[:index]) if e.kind == 'test'
-                          and inequality(rules.value_expr(path, i, e.node)) == overload]
-                congested = bool(guards) and guards[-1]['value'] is True
-                relaxed = bool(guards) and guards[-1]['value'] is False
-                if isinstance(value, ast.Constant):
-                    ok = float(value.value) == 1.0 and relaxed
-                    kinds['uncongested=1'] = kinds.get('uncongested=1', True) and ok
-                else:
-                    ok = equal_algebra(
-                        value, 'self.throughput / sum(self._subscriptions.values())') \
-                        and congested
-                    kinds['congested=throughput/sum'] = kinds.get(
-                        'congested=throughput/sum', True) and ok
-    for name in ('uncongested=1', 'congested=throughput/sum'):
-        check.instance('A', 'scale:%s' % name, kinds.get(name) is True,
-                       where_fn(throttle.fn),
-                       'scale is 1 when demand <= throughput, throughput / sum(all limits) '
-                       'under `sum > throughput`: %s' % kinds)
+    check_scale(check, an, 'A', throttle, scale)
+    # every pipe has a subscription table of its own, made by its constructor
+    made = set()
+    for path in an.paths(an.callee(PIPE, '__init__')):
+        if not path.normal:
+            continue
+        stores = [(i, e) for i, e in enumerate(path.events) if e.kind == 'store'
+                  and e.get('path') == 'self._subscriptions' and e.depth == 0]
+        made.add(rules.value_text(path, stores[-1][0], stores[-1][1]['value'])
+                 if stores and stores[-1][1].data.get('value') is not None else '<none>')
+    check.instance('A', 'Pipe:own-subscription-table', bool(made) and made <= {'{}', 'dict()'},
+                   where_fn(an.method(PIPE, '__init__')),
+                   'the constructor gives each pipe a fresh table of shares: %s' % sorted(made))
+    # a transfer is over exactly when the whole volume was accounted for
+    done_ok, n_done, bad_done = True, 0, None
+    exact = rules.asserted(ast.parse('%s < %s' % (acc, total), mode='eval').body, False)
+    for path in paths:
+        if not path.normal:
+            continue
+        accounted = [i for i, e in enumerate(path.events) if e.kind == 'store'
+                     and e['path'] == acc and e['aug'] is not None and e.depth == 0]
+        if not accounted:
+            continue
+        n_done += 1
+        facts = [f for _p, f, _a in rules.path_inequalities(path, accounted[-1],
+                                                            len(path.events))]
+        if exact not in facts:
+            done_ok, bad_done = False, bad_done or path
+    check.instance('A', 'transfer:ends-when-volume-reached', done_ok and n_done > 0,
+                   where_fn(fn), 'after its last accounting a finished transfer has tested '
+                   '`not %s < %s` -- no tolerance that ends it early (%d paths)' % (
+                       acc, total, n_done),
+                   path=rules.path_lines(bad_done) if bad_done else None, analysed=n_done)
     # UnboundedPipe
     an.cls(UNBOUNDED)
     utransfer = an.callee(UNBOUNDED, 'transfer')
